@@ -12,6 +12,10 @@ impl HasKey<Public> for V3 {
     type Key = PublicKey;
 
     fn decode(bytes: &[u8]) -> Result<PublicKey, PasetoError> {
+        // PASERK k3.public is the 49-byte compressed point only (no uncompressed / identity encodings)
+        if bytes.len() != 49 {
+            return Err(PasetoError::InvalidKey);
+        }
         let pk = VerifyingKey::from_sec1_bytes(bytes)?;
         Ok(PublicKey(pk))
     }
